@@ -62,9 +62,13 @@ func ErrReceivedMessageFromUnexpectedPeer(peerId string, swapId *SwapId) error {
 type SwapService struct {
 	swapServices *SwapServices
 
-	activeSwaps    map[string]*SwapStateMachine
-	BitcoinEnabled bool
-	LiquidEnabled  bool
+	activeSwaps map[string]*SwapStateMachine
+	// activeSwapChannels remembers, per active swap id, the (normalised)
+	// channel the swap was locked for. The swap data learns its channel only
+	// when the request is applied, which happens after the lock is taken.
+	activeSwapChannels map[string]string
+	BitcoinEnabled     bool
+	LiquidEnabled      bool
 	sync.RWMutex
 
 	lastMsgLog map[string]string
@@ -72,11 +76,12 @@ type SwapService struct {
 
 func NewSwapService(services *SwapServices) *SwapService {
 	return &SwapService{
-		swapServices:   services,
-		activeSwaps:    map[string]*SwapStateMachine{},
-		LiquidEnabled:  services.liquidEnabled,
-		BitcoinEnabled: services.bitcoinEnabled,
-		lastMsgLog:     map[string]string{},
+		swapServices:       services,
+		activeSwaps:        map[string]*SwapStateMachine{},
+		activeSwapChannels: map[string]string{},
+		LiquidEnabled:      services.liquidEnabled,
+		BitcoinEnabled:     services.bitcoinEnabled,
+		lastMsgLog:         map[string]string{},
 	}
 }
 
@@ -993,6 +998,7 @@ func (s *SwapService) RemoveActiveSwap(swapId string) {
 	defer s.Unlock()
 	delete(s.lastMsgLog, swapId)
 	delete(s.activeSwaps, swapId)
+	delete(s.activeSwapChannels, swapId)
 }
 
 // swapIdKnown reports whether a swap with this id is already known to the
@@ -1020,14 +1026,15 @@ func (s *SwapService) lockSwap(swapId, channelId string, fsm *SwapStateMachine) 
 	}
 
 	// Check if we already have an active swap on the same channel
-	for id, swap := range s.activeSwaps {
-		if normalizeScid(swap.Data.GetScid()) == normalizeScid(channelId) {
+	for id := range s.activeSwaps {
+		if s.activeSwapChannels[id] == normalizeScid(channelId) {
 			return ActiveSwapError{channelId: channelId, swapId: id}
 		}
 	}
 
 	// Add active swap
 	s.activeSwaps[swapId] = fsm
+	s.activeSwapChannels[swapId] = normalizeScid(channelId)
 	return nil
 }
 
